@@ -8,10 +8,12 @@ Three parts (DESIGN.md, section C10):
                 occurs in it, and for every keyword harvested at run time from the sources under test
                 (get_keyval / key_lookup in the member functions of the class that parses that block, and of its base
                 classes) that is absent, the value is replaced by each class of
-                  {0, -1, 1, 2, 2^31-1, 2^31, 2^63-1, 1e30, 1e308, nan, inf, -inf, empty, list too short / too long,
-                   atom numbers 0 / -1 / beyond the system / duplicated, empty or overlapping groups,
-                   non-existent files, boundaries swapped or equal}
-                plus seeded pairs of such substitutions.  Then: init, 0-12 steps on the template's history, savestr,
+                  {0, -1, 1, 2, 2^31-1, 2^31, 2^63-1, 1e30, 1e308, nan, inf, -inf, empty value, keyword removed, list
+                   too short / too long, vector with too few / too many components, atom numbers 0 / -1 / beyond the
+                   system / duplicated, empty or overlapping groups, non-existent files, boundaries swapped or equal}
+                plus seeded pairs of such substitutions.  (Substitutions that are the same in many templates - a
+                keyword of a shared base class, the scaffolding of the component templates - are tried in a seeded
+                choice of templates; quick runs a stratified sample of about 3800 cases, thorough about 35000.)  Then: init, 0-12 steps on the template's history, savestr,
                 `cv printframe`, `cv save`, end of run with an output prefix (output files written).
  b. oracle      one `asan` (ASan+UBSan, reports fatal) esim process per case.  The process must reach the `end` event.
                 Death by signal, any sanitizer report (including ASan's allocation-size / rss caps: RLIMIT_AS cannot be
@@ -539,8 +541,6 @@ def conflicting(m1, m2):
         ps1 = [tuple(p1)] + ([tuple(m1["path2"])] if "path2" in m1 else [])
         ps2 = [tuple(p2)] + ([tuple(m2["path2"])] if "path2" in m2 else [])
         return bool(set(ps1) & set(ps2))
-    if m1["op"] == "add" and m2["op"] == "add" and not p1 and not p2:
-        return False
     return False
 
 
@@ -930,6 +930,8 @@ def run(tier, replay):
                      "the Tcl entry point of the script interface clears the error state at entry of every command; the "
                      "simulator reproduces that with its `clearerr` command in 3 of 4 cases (and before/after R in part c)",
                      "an exception that leaves the library is counted as fatal (engines do not catch it)",
+                     "C10_HANG_FACTOR (default 10) and C10_ONLY (regular expression on 'template|object.keyword=class') are "
+                     "debugging aids only; a run with C10_ONLY does not reach the observation floor",
                      "part c feeds configurations that define exactly one object; colvar blocks with the legacy wall keywords "
                      "(which generate a second object, a harmonicWalls bias) are not used as R"]
     exe0 = common.vbuild.tool("asan", "esim")
